@@ -296,6 +296,9 @@ def gen_marker(seed, big):
         ("name=\"f1\" note=\"don't skip this one\"", ['f1'], True), ("name='f1' note='say \"skip\" twice'", ['f1'], True),
         ("name=\"it's\"", ["it's"], True), ("name=\"it's\"", ['it'], False), ("name='a\"b'", ['a"b'], True), ("name='a\"b'", ['a'], False),
         ("name='C:\\'", ['C:\\'], True), ("name='f1\\' other='x'", ['f1\\'], True),
+        # target names are compared as whole strings: padding counts on either side
+        ("name='f1'", ['f1 '], False), ("name='f1'", [' f1'], False), ("name=' f1'", [' f1'], True), ("name='f1 '", ['f1'], False),
+        ("name=''", [' '], False), ("name=' '", [' '], True), ("name='f1'", ['f1\n'], False), ("name='f1'", ['\tf1'], False),
         # the FIRST attribute called `name` decides
         ("name name='f1'", ['f1'], False), ("name=f2 name='f1'", ['f1'], False), ("name='zz' name='f1'", ['f1'], False), ("name='f1' name='zz'", ['f1'], True),
         ("name=''\n  name='f1'", ['f1'], False), ("name\n name=\"f1\"", ['f1', ''], False),
@@ -899,6 +902,45 @@ def gen_identity_unexpired(seed, big):
     return res
 
 
+def gen_identity_decisions(seed, big):
+    """C04 on the decision tables of C05 / C06: every document of gen_marker / gen_expiry whose element is NOT ready
+    (first `name` valueless or unquoted or not a target, padded targets, skip, malformed `to` or offset, ...) comes back
+    byte-identical"""
+    out = []
+    for req, orc in gen_marker(seed, big) + gen_expiry(seed, big):
+        src = req['source']
+        if orc({'ok': True, 'output': src}) is None:      # the generator's own oracle accepts "unchanged": nothing is ready
+            out.append((req, (lambda s_: lambda r: None if r.get('ok') and r.get('output') == s_ else 'nothing is ready, yet the output differs from the input: ' + json.dumps(r, ensure_ascii=False)[:200])(src)))
+    return out
+
+
+def gen_opaque_decisions(seed, big):
+    """C09, second sentence: the text of a QUOTED value changes no removal decision and no removal strategy - keywords
+    (skip, unwrap-block), look-alike attributes (to=..., name=...), the start delimiter, line breaks inside quotes"""
+    out = []
+    for ds, de in (('<', '>'), ('/* <', '> */'), ('<!--', '-->')):
+        def doc(tag, attrs):
+            return f"before\n{ds}{tag} {attrs}{de}\nif (x) {{\n  body();\n}}\n{ds}/{tag}{de}\nafter\n"
+        gone = 'before\nafter\n'
+        cases = [
+            (TL, f"to='{PAST}' c=\"drop this, no unwrap-block here\"", True), (TL, f"c='unwrap-block' to='{PAST}'", True),
+            (RM, "name='f1' c='unwrap-block'", True), (RM, "c=\"x unwrap-block y\" name='f1'", True),
+            (TL, f"to='{PAST}' c='skip'", True), (RM, "name='f1' c=\" skip \"", True), (RM, "c='skip' name='f1'", True),
+            (TL, f"c=\"to='{FUTURE}'\" to='{PAST}'", True), (TL, f"c='to=\"{PAST}\"' to='{FUTURE}'", False),
+            (RM, "c=\"name='f1'\" name='zz'", False), (RM, "c=\"name='zz'\" name='f1'", True),
+            (TL, f"to='{PAST}' c='a\n * b unwrap-block\n * skip'", True), (RM, f"name='f1' c='{ds.strip() or ds}'", True),
+            (TL, f"to='{PAST}' c='= \" ='", True), (RM, "name='f1' c=\"it's = 'skip'\"", True),
+        ]
+        for tag, attrs, ready in cases:
+            if de.strip() in attrs or (de == '>' and '>' in attrs):
+                continue
+            src = doc(tag, attrs)
+            exp = gone if ready else src
+            out.append((dict(cfg(), mode='clean', source=src, ds=ds, de=de),
+                        (lambda e, a: lambda r: None if r.get('ok') and r.get('output') == e else f'the text of a quoted value changed a removal decision or strategy (attributes [{a}]): ' + json.dumps(r, ensure_ascii=False)[:200])(exp, attrs)))
+    return out
+
+
 def gen_blanklines(seed, big):
     """C13: block-style removal with b blank lines before and a after leaves a+b-[a>0 and b>0] blank lines; lines intact"""
     out = []
@@ -1114,6 +1156,14 @@ def gen_pairing(seed, big):
                 continue
             tup.append(c)
         seqs.append(tuple(tup))
+    # long documents: many never-closed openers / stray closers in front of a well-formed element, deep nesting,
+    # deep nesting closed from the outside (no bound on the number of open tags)
+    for n in (40, 70, 130) if not big else (40, 63, 64, 65, 70, 130, 300):
+        seqs.append(tuple(['<b>'] * n + ['<a>', 'T', '</a>']))
+        seqs.append(tuple(['</z>'] * n + ['<a>', 'T', '</a>', 'T']))
+        seqs.append(tuple(['<a>'] * n + ['T'] + ['</a>'] * n))
+        seqs.append(tuple(['<c>'] + ['<b>'] * n + ['T', '</c>', '<a>', 'T', '</a>']))
+        seqs.append(tuple((['<a>', '<b>'] * n)[:n] + ['T'] + ['</b>', '</a>'] * (n // 4)))
     out = []
     for tup in seqs:
         pieces, off = [], 0
@@ -1197,8 +1247,8 @@ def _back_same(t, d):
 
 
 GENERATORS = {
-    'C01': [gen_totality], 'C04': [gen_identity, gen_identity_unwrappable, gen_identity_unrecognised, gen_identity_unexpired], 'C07': [gen_partition], 'C08': [gen_recognition], 'C05': [gen_expiry], 'C06': [gen_marker],
-    'C09': [gen_grammar], 'C10': [gen_pairing], 'C02': [gen_blocks, gen_inline, gen_nested_text_survives, gen_unwrap_crlf_text, gen_odd_whitespace_lines], 'C03': [gen_blocks, gen_inline, gen_nested_text_survives, gen_unwrap_crlf_text], 'C11': [gen_blocks, gen_unwrap_wrappers, gen_unwrap_four_lines, gen_identity_unwrappable, gen_unwrap_crlf_text], 'C17': [gen_list_all],
+    'C01': [gen_totality], 'C04': [gen_identity, gen_identity_unwrappable, gen_identity_unrecognised, gen_identity_unexpired, gen_identity_decisions], 'C07': [gen_partition], 'C08': [gen_recognition], 'C05': [gen_expiry], 'C06': [gen_marker],
+    'C09': [gen_grammar, gen_opaque_decisions], 'C10': [gen_pairing], 'C02': [gen_blocks, gen_inline, gen_nested_text_survives, gen_unwrap_crlf_text, gen_odd_whitespace_lines], 'C03': [gen_blocks, gen_inline, gen_nested_text_survives, gen_unwrap_crlf_text], 'C11': [gen_blocks, gen_unwrap_wrappers, gen_unwrap_four_lines, gen_identity_unwrappable, gen_unwrap_crlf_text], 'C17': [gen_list_all],
     'C12': [gen_dedent, gen_dedent_nested, gen_dedent_crlf], 'C13': [gen_blanklines, gen_lines_intact, gen_odd_whitespace_lines], 'C14': [gen_inline, gen_dedent_nested, gen_unwrap_lines_intact, gen_unwrap_lines_intact_crlf], 'C15': [gen_list_regions],
 }
 
